@@ -1,5 +1,10 @@
 #!/bin/sh
+# Build the symbolic executor offline from files on disk.
 set -e
 cd "$(dirname "$0")"
 export GOFLAGS=-mod=mod GOPROXY=off
-[ -d engine ] && (cd engine && go build -o ../bin/gosymex .)
+[ "$GOTOOLCHAIN" = local ] && unset GOTOOLCHAIN
+[ "$GOSUMDB" = off ] && unset GOSUMDB
+mkdir -p bin
+(cd engine && go build -o ../bin/gosymex .)
+echo "gosymex built"
